@@ -155,8 +155,10 @@ def case_request(c):
 
 # ------------------------------------------------------------------------------------------
 def run(ctx):
-    vplib.gen_consts(ctx)
+    broken = rc.gen_consts_or_search(ctx)
     proofs_ok, detail = vplib.check_proofs(ctx)
+    if broken:
+        proofs_ok, detail = False, broken
     ctx.log("proofs:", proofs_ok, detail[:200])
     rng = ctx.rng
     now_t = time.time()
@@ -241,6 +243,8 @@ def run(ctx):
         eval_cases.append((c, replay))
 
     # ---------------- model ----------------
+    if broken:
+        exprs, eval_cases = [], []          # stale constants: predicate only
     model = vplib.coq_eval(ctx, "From GPA Require Import Headers.", exprs, shard=60)
     ctx.log("model: %d requests evaluated" % len(model))
     signed_n = 0
